@@ -172,7 +172,11 @@ def bound_for(family, N):
 
 def run_one(res: Result, family, variant, N, trigger, engine, finite_len):
     builder, _ = FAMILIES[family]
-    cfg = builder(N, variant, trigger, finite_len)
+    cfg = builder(N, variant, "event" if trigger == "after" else trigger, finite_len)
+    if trigger == "after":
+        # the chain is started by an engine-owned timer (sync: a timer THREAD runs the drain)
+        holder = cfg["states"].get("idle") or cfg["states"]["s"]
+        holder["after"] = {"5": holder["on"].pop("GO")}
     B = bound_for(family, N)
     st = {"cnt": 0, "probe": 0, "beats": 0, "last_beat_at": 0, "max_gap": 0, "stopper": None}
     wit = {"family": family, "variant": variant, "N": N, "trigger": trigger, "engine": engine,
@@ -209,6 +213,17 @@ def run_one(res: Result, family, variant, N, trigger, engine, finite_len):
                 it.start()
                 if trigger == "event":
                     it.send("GO")
+                elif trigger == "after":
+                    import time as _t
+                    t0 = _t.time()
+                    last, stable = -1, 0
+                    while _t.time() - t0 < 3.0 and stable < 8:
+                        _t.sleep(0.01)
+                        if st["cnt"] == last and st["cnt"] > 0 and not it._is_processing:
+                            stable += 1
+                        else:
+                            stable = 0
+                        last = st["cnt"]
             except Exception as x:  # noqa: BLE001
                 info["exc"] = repr(x)
             errors[0] = cap.count(logging.ERROR)
@@ -224,7 +239,9 @@ def run_one(res: Result, family, variant, N, trigger, engine, finite_len):
             async def body():
                 async def heart():
                     while True:
-                        await asyncio.sleep(0)
+                        # with a timer-triggered chain virtual time must be able to advance, so
+                        # the heartbeat then ticks in (virtual) time instead of spinning
+                        await asyncio.sleep(0.0001 if trigger == "after" else 0)
                         st["beats"] += 1
                 hb = asyncio.ensure_future(heart())
                 it = Interpreter(machine)
@@ -232,6 +249,8 @@ def run_one(res: Result, family, variant, N, trigger, engine, finite_len):
                     await it.start()
                     if trigger == "event":
                         await it.send("GO")
+                    elif trigger == "after":
+                        await asyncio.sleep(0.006)
                     if family == "invoke":
                         for _ in range(40 * N):     # the chain yields; let it run a while
                             await asyncio.sleep(0)
@@ -341,8 +360,12 @@ def run_chunk(spec):
     for family, (_, variants) in FAMILIES.items():
         for v in variants:
             for N in Ns:
-                for trig in ("start", "event"):
+                for trig in ("start", "event", "after"):
                     for eng in ("sync", "async"):
+                        if trig == "after" and (N not in (3, 8, 21) or v != 1):
+                            continue
+                        if trig == "after" and family == "invoke" and eng == "async":
+                            continue   # endlessly runnable chain: virtual time cannot advance
                         cases.append((family, v, N, trig, eng, None))
                         if family in ("always", "raise") and v == 1:
                             for L in sorted({1, max(1, N // 2), N - 1}):
